@@ -251,8 +251,8 @@ def check(prop, tier, seed, runs=None, workers=None, wall_cap=None, selftest=Tru
                 harness_error(f"run {f['run_index']} failed {f['clause']} when generated but not when replayed")
         clause, msg, detail = st.failures[0]
         matched = findings_mod.match(fl, sim, clause, f["knobs"], events)
-        os.makedirs(os.path.join(env.VERIF_DIR, "replays"), exist_ok=True)
-        path = os.path.join(env.VERIF_DIR, "replays", f"{prop}-{seed}-{f['run_index']}.json")
+        os.makedirs(os.path.join(env.OUT_DIR, "replays"), exist_ok=True)
+        path = os.path.join(env.OUT_DIR, "replays", f"{prop}-{seed}-{f['run_index']}.json")
         with open(path, "w") as fh:
             json.dump({"property": prop, "clause": clause, "seed": seed, "run_index": f["run_index"], "tier": tier, "knobs": f["knobs"],
                        "events": events, "message": msg, "detail": detail, "digest": st.digest(), "original_length": len(f["events"]),
@@ -286,7 +286,7 @@ def check(prop, tier, seed, runs=None, workers=None, wall_cap=None, selftest=Tru
         },
         "assumptions": list(sim.ASSUMPTIONS),
     }
-    write_evidence(os.path.join(env.VERIF_DIR, "evidence", f"{prop}.json"), ev)
+    write_evidence(os.path.join(env.OUT_DIR, "evidence", f"{prop}.json"), ev)
     for fnd, path in known:
         print(f"KNOWN-FINDING: property={prop} {fnd['what_fails']} (finding {fnd['id']}, example {path})")
     for clause, msg, path, n_min, n_orig in violations:
